@@ -1,4 +1,239 @@
 package main
 
-// runSensitivity is the thorough tier's self-test of the rules (see sens_*.go).
-func runSensitivity(c *Ctx, fn propFn) {}
+// Sensitivity suite (thorough tier).  The seeded changes stored under
+// /verif/seeded/*/patch.diff - written by independent agents that saw only the
+// property text - are applied to the CURRENT sources in memory
+// (packages.Config.Overlay; nothing is copied to disk), the mutated program is
+// type-checked and analysed with the same rules, and the rule set must report
+// a violation that the unchanged tree does not have.  A patch whose context no
+// longer matches the current sources is skipped and counted; a patch that
+// applies and is not reported is recorded as "insensitive" in the evidence (it
+// does not become a VIOLATION of the property: it says the rules lost their
+// teeth for that change on this tree).
+
+import (
+	"encoding/json"
+	"fmt"
+	"os"
+	"path/filepath"
+	"sort"
+	"strconv"
+	"strings"
+
+	"golang.org/x/tools/go/ssa"
+)
+
+type diffHunk struct {
+	oldStart int
+	lines    []string // with leading ' ', '-', '+'
+}
+
+type fileDiff struct {
+	path  string
+	hunks []diffHunk
+}
+
+func parseUnifiedDiff(text string) []fileDiff {
+	var out []fileDiff
+	var cur *fileDiff
+	var hk *diffHunk
+	for _, ln := range strings.Split(text, "\n") {
+		switch {
+		case strings.HasPrefix(ln, "+++ "):
+			p := strings.TrimPrefix(ln, "+++ ")
+			p = strings.TrimPrefix(p, "b/")
+			out = append(out, fileDiff{path: strings.TrimSpace(p)})
+			cur = &out[len(out)-1]
+			hk = nil
+		case strings.HasPrefix(ln, "--- "), strings.HasPrefix(ln, "diff "), strings.HasPrefix(ln, "index "):
+			hk = nil
+		case strings.HasPrefix(ln, "@@"):
+			if cur == nil {
+				continue
+			}
+			// @@ -a,b +c,d @@
+			f := strings.Fields(ln)
+			start := 1
+			if len(f) > 1 {
+				o := strings.TrimPrefix(f[1], "-")
+				if i := strings.Index(o, ","); i >= 0 {
+					o = o[:i]
+				}
+				start, _ = strconv.Atoi(o)
+			}
+			cur.hunks = append(cur.hunks, diffHunk{oldStart: start})
+			hk = &cur.hunks[len(cur.hunks)-1]
+		default:
+			if hk != nil && len(ln) > 0 && (ln[0] == ' ' || ln[0] == '-' || ln[0] == '+') {
+				hk.lines = append(hk.lines, ln)
+			} else if hk != nil && ln == "" {
+				hk.lines = append(hk.lines, " ")
+			}
+		}
+	}
+	return out
+}
+
+// applyDiff applies the hunks to src; ok=false if some hunk's context is not found.
+func applyDiff(src string, fd fileDiff) (string, bool) {
+	lines := strings.Split(src, "\n")
+	offset := 0
+	for _, h := range fd.hunks {
+		var old, neu []string
+		for _, l := range h.lines {
+			switch l[0] {
+			case ' ':
+				old = append(old, l[1:])
+				neu = append(neu, l[1:])
+			case '-':
+				old = append(old, l[1:])
+			case '+':
+				neu = append(neu, l[1:])
+			}
+		}
+		// trailing empty context produced by the splitter
+		for len(old) > 0 && len(neu) > 0 && old[len(old)-1] == "" && neu[len(neu)-1] == "" && len(h.lines) > 0 && h.lines[len(h.lines)-1] == " " {
+			old, neu = old[:len(old)-1], neu[:len(neu)-1]
+			h.lines = h.lines[:len(h.lines)-1]
+		}
+		match := func(at int) bool {
+			if at < 0 || at+len(old) > len(lines) {
+				return false
+			}
+			for i, o := range old {
+				if lines[at+i] != o {
+					return false
+				}
+			}
+			return true
+		}
+		at := h.oldStart - 1 + offset
+		found := -1
+		for d := 0; d <= 400 && found < 0; d++ {
+			if match(at + d) {
+				found = at + d
+			} else if match(at - d) {
+				found = at - d
+			}
+		}
+		if found < 0 {
+			return "", false
+		}
+		nl := append([]string{}, lines[:found]...)
+		nl = append(nl, neu...)
+		nl = append(nl, lines[found+len(old):]...)
+		offset += len(neu) - len(old)
+		lines = nl
+	}
+	return strings.Join(lines, "\n"), true
+}
+
+func runSensitivity(c *Ctx, fn propFn) {
+	vd := verifDir()
+	var results map[string]map[string]json.RawMessage
+	if err := loadJSON(filepath.Join(vd, "seeded", "RESULTS.json"), &results); err != nil {
+		c.Note("sensitivity suite skipped: seeded/RESULTS.json not readable: %v", err)
+		return
+	}
+	// baseline keys (unchanged tree, host configuration only)
+	base := newCtx(c.Prop, c.Tier, nil)
+	l0, err := load("", "", nil)
+	if err != nil {
+		c.Note("sensitivity suite skipped: %v", err)
+		return
+	}
+	base.L = l0
+	gL = l0
+	fn(base)
+	base.classify()
+	baseBad := map[string]bool{}
+	for _, o := range base.obls {
+		if o.Outcome == Violation || o.Outcome == Undecided {
+			baseBad[o.Rule+"|"+o.Key] = true
+		}
+	}
+	var seeds []string
+	for s, det := range results {
+		if _, ok := det[c.Prop]; ok {
+			seeds = append(seeds, s)
+		}
+	}
+	sort.Strings(seeds)
+	for _, seed := range seeds {
+		patch, err := os.ReadFile(filepath.Join(vd, "seeded", seed, "patch.diff"))
+		if err != nil {
+			c.sens = append(c.sens, sensResult{Name: seed, Result: "skipped", Reported: "patch file missing"})
+			continue
+		}
+		overlay := map[string][]byte{}
+		applies := true
+		for _, fd := range parseUnifiedDiff(string(patch)) {
+			abs := filepath.Join(repoDir(), fd.path)
+			src, err := os.ReadFile(abs)
+			if err != nil {
+				applies = false
+				break
+			}
+			neu, ok := applyDiff(string(src), fd)
+			if !ok {
+				applies = false
+				break
+			}
+			overlay[abs] = []byte(neu)
+		}
+		if !applies {
+			c.sens = append(c.sens, sensResult{Name: seed, Result: "skipped", Reported: "patch context does not match the current sources"})
+			continue
+		}
+		lm, err := load("", "", overlay)
+		if err != nil {
+			c.sens = append(c.sens, sensResult{Name: seed, Result: "skipped", Reported: "mutated sources do not type-check: " + err.Error()})
+			continue
+		}
+		mc := newCtx(c.Prop, c.Tier, lm)
+		gL = lm
+		guardMemo = map[*ssa.BasicBlock][]guardEdge{}
+		func() {
+			defer func() {
+				if r := recover(); r != nil {
+					mc.Und(mc.Rule("checker", "checker ran", 0), "panic", "-", fmt.Sprint(r))
+				}
+			}()
+			fn(mc)
+		}()
+		mc.classify()
+		var rep []string
+		rule := ""
+		for _, o := range mc.obls {
+			if (o.Outcome == Violation || o.Outcome == Undecided) && !baseBad[o.Rule+"|"+o.Key] {
+				rep = append(rep, o.Pos+" "+o.Rule+" ["+o.Key+"]")
+				rule = o.Rule
+			}
+		}
+		r := sensResult{Name: seed, Rule: rule}
+		if len(rep) > 0 {
+			r.Result = "detected"
+			if len(rep) > 3 {
+				rep = rep[:3]
+			}
+			r.Reported = strings.Join(rep, "; ")
+		} else {
+			r.Result = "insensitive"
+		}
+		c.sens = append(c.sens, r)
+	}
+	gL = c.L
+	det, ins, skp := 0, 0, 0
+	for _, r := range c.sens {
+		switch r.Result {
+		case "detected":
+			det++
+		case "insensitive":
+			ins++
+		default:
+			skp++
+		}
+	}
+	c.extra["sensitivity_summary"] = fmt.Sprintf("%d seeded changes relevant to %s: %d detected, %d insensitive, %d skipped", len(c.sens), c.Prop, det, ins, skp)
+	fmt.Printf("sensitivity: %s\n", c.extra["sensitivity_summary"])
+}
